@@ -297,6 +297,8 @@ def main(argv):
             continue
         workers, nex = part.budget[tier]
         nex = max(1, int(nex * scale))
+        if os.environ.get('VERIF_WORKERS'):       # e.g. VERIF_WORKERS=1 for in-process runs (coverage measurement, debugging)
+            workers = int(os.environ['VERIF_WORKERS'])
         if part.enumerate is not None:
             jobs = [(prop_id, pi, tier, w, workers) for w in range(workers)]
             fn = _enum_worker
